@@ -1,11 +1,13 @@
 /- Line-protocol driver for the printer model (C03).  Commands (tab separated):
      C <sexp> <text>   tree (canonical surface form of a real tree) and the text the real `str()` produced for it →
                        "<good>\t<first bad triple or ->\t<model print text>\t<lex(text) = model tokens>\t<parse(model print)>"
+     STR <hex>         a string value: "<text the printer writes>\t<VALUE v | NOTOKEN: what lexing and building that text gives>"
      B                 every (parent, operand position, child) combination of the fragment's operators whose witness tree fails
                        the computed criterion: "<parent>\t<pos>\t<child>\t<witness sexp>\t<min text>\t<model print>\t<reparse>"
 -/
 import UtapModel.Model.Sexp
 import UtapModel.Model.PrintModel
+import UtapModel.Model.StrLit
 open UtapModel UtapModel.Pratt UtapModel.ExprTable UtapModel.ExprGrammar UtapModel.PrintModel
 
 def tokOfName (n : String) : Nat := tokId n
@@ -164,6 +166,19 @@ def stepLine (line : String) : List String :=
         let re := match parseTop utapT toks with | some e' => (toK genData e').str | none => "REJECT"
         ["\t".intercalate [toString g, bad, toksText toks, toString lexeq, re]]
   | ["B"] => badLines ++ ["END"]
+  | ["STR", hex] =>
+    -- a string value (hex of its code points' bytes, ASCII only): the text the printer writes for it and what comes back
+    let hv (c : Char) : Nat := if c.isDigit then c.toNat - 48 else c.toLower.toNat - 87
+    let rec bytes : List Char → List Char
+      | a :: b :: r => Char.ofNat (hv a * 16 + hv b) :: bytes r
+      | _ => []
+    let v := bytes hex.toList
+    let q := UtapModel.StrLit.quote v
+    let back := match UtapModel.StrLit.roundTrip v [] with
+      | some (v', []) => "VALUE " ++ String.ofList v'
+      | some (v', r) => "VALUE " ++ String.ofList v' ++ " REST " ++ String.ofList r
+      | none => "NOTOKEN"
+    [String.ofList q ++ "\t" ++ back]
   | _ => ["bad-op"]
 
 partial def loop (h : IO.FS.Stream) (out : IO.FS.Stream) : IO Unit := do
